@@ -34,14 +34,15 @@ EPS = 1e-6
 
 def plan(tier):
     if tier == "quick":
-        return [{"n": 200, "i": i, "strict": i % 2 == 0} for i in range(16)]
+        return [{"n": 130, "i": i, "strict": i % 2 == 0} for i in range(16)]
     return [{"n": 8000, "i": i, "strict": i % 2 == 0} for i in range(16)]
 
 
 def oracle(ctx, f, c):
     w = f.w
     ems = rel.emissions_by_send(f)
-    timeout = {"c": f.conns["c"].outgoing_timeout, "s": f.conns["s"].outgoing_timeout}
+    # the CONFIGURED message timeouts (from the scenario), not what the live connection objects happen to hold
+    timeout = dict(f.timeout_cfg)
     for r in f.recs:
         if "raised" in r or not r.get("connected", True):
             continue
@@ -106,8 +107,8 @@ def per_step(f):
         if conn.status != ConnectionStatus.CONNECTED:
             continue
         for seq, t in conn.pending_acks.items():
-            if now - t > conn.outgoing_timeout + 0.08 and len(f.stale_pending) < 3:
-                f.stale_pending.append("side=%s datagram seq %d still pending %.3f s after it was sent (timeout %.2f)" % (side, seq, now - t, conn.outgoing_timeout))
+            if now - t > f.timeout_cfg[side] + 0.08 and len(f.stale_pending) < 3:
+                f.stale_pending.append("side=%s datagram seq %d still pending %.3f s after it was sent (configured timeout %.2f)" % (side, seq, now - t, f.timeout_cfg[side]))
 
 
 def classify(f, c):
